@@ -337,6 +337,15 @@ def cat_arms(ctx, rule="CAT-ARMS"):
                                 mi = re.search(r"call@(\d+):<std::vec::Vec<T, A> as std::ops::Index<I>>::index", other_v)
                                 ix = S.val(f.blocks[int(mi.group(1))]["term"]["args"][1]) if mi else ""
                                 lim[k_] = ix[2:] if re.fullmatch(r"c:\d+", ix) else None
+            # ... and the stem (piece 0) must not be empty: `.cab` is no cabinet name
+            stem_ne = False
+            for (b_, n_, a_, t_) in symcalls(prog, f, S):
+                if b_ in blksc and n_.endswith("<impl str>::is_empty") and a_:
+                    mi = re.search(r"call@(\d+):<std::vec::Vec<T, A> as std::ops::Index<I>>::index", a_[0])
+                    if mi and S.val(f.blocks[int(mi.group(1))]["term"]["args"][1]) == "c:0":
+                        stem_ne = True
+            ctx.check(stem_ne, rule, "Cabinet: the stem is not empty", "", "Category::Cabinet no longer tests that the piece in front of the last '.' is non-empty: `.cab`, `.c` and `.` are accepted",
+                      f.loc(), fn=f.name, key="%s|cabinet-stem" % rule)
             ctx.check(lim.get("c:8") == "0" and lim.get("c:3") == "1", rule, "Cabinet: 8 for the stem, 3 for the extension", str(lim), "Category::Cabinet applies its length limits to pieces %s "
                       "(expected limit 8 on piece 0, limit 3 on piece 1)" % lim, f.loc(), fn=f.name, key="%s|cabinet-pieces" % rule)
     # categories without a grammar in this library accept everything (the default arm is `true`)
